@@ -21,6 +21,9 @@ CHECK_DEADLOCK FALSE
 """
 
 
+_THREE = [0]
+
+
 def three(a, dt, periods, xi, container=0):
     """the three entry points; returns list of (u, v, acc) arrays of shape (len(periods), n)"""
     import eqsig
@@ -30,7 +33,17 @@ def three(a, dt, periods, xi, container=0):
     r1 = sdof.response_series(arg, dt, per, xi)
     r2 = sdof.nigam_and_jennings_response(arg, dt, per, xi)
     o = eqsig.AccSignal(np.asarray(a, dtype=float), dt)
-    r3 = o.response_series(response_times=np.array(periods), xi=xi)
+    _THREE[0] += 1
+    if xi == 0.05 and _THREE[0] % 2:
+        # the object's default damping (0.05), asked for after spectra were generated explicitly with other damping values
+        import warnings
+        with warnings.catch_warnings():
+            warnings.simplefilter("ignore")
+            o.gen_response_spectrum(response_times=np.array([0.3, 1.0]), xi=0.2)
+            o.generate_response_spectrum(xi=0)
+        r3 = o.response_series(response_times=np.array(periods))
+    else:
+        r3 = o.response_series(response_times=np.array(periods), xi=xi)
     return [tuple(np.asarray(x, dtype=float) for x in r) for r in (r1, r2, r3)]
 
 
@@ -53,9 +66,10 @@ def table_row(code, digits):
 
 def regime(rng, i):
     edges = [0.2, 1.0, 5.99, 6.0, 6.01, 2e4, 0.35, 0.5, 100.0, 6300.0, 7000.0, 1e4, 2.5, 1.4]
-    ratio = edges[i % len(edges)] if i % 2 == 0 else float(10.0 ** rng.uniform(np.log10(0.2), np.log10(2e4)))
-    xis = [0.0, 1e-3, 0.05, 0.3, 0.7, 0.95, 0.999]
-    xi = xis[i % len(xis)] if i % 3 else float(rng.uniform(0, 0.999))
+    # (independent random choices: index arithmetic on i correlates the regime with the caller's other choices)
+    ratio = float(edges[int(rng.integers(len(edges)))]) if rng.integers(2) else float(10.0 ** rng.uniform(np.log10(0.2), np.log10(2e4)))
+    xis = [0.0, 1e-3, 0.05, 0.3, 0.7, 0.95, 0.999, 5e-4, 0.05, 8e-4, 2e-4]
+    xi = float(xis[int(rng.integers(len(xis)))]) if rng.integers(3) else float(rng.uniform(0, 0.999))
     return ratio, xi
 
 
